@@ -640,6 +640,37 @@ func runC20(w *World, r *Report) {
 					ok = false
 					det = "an appended element is not a member of the source message's " + spec.src
 				}
+				// the member is kept exactly when WaitObjReady says "not skipped" for it
+				guarded := false
+				for _, b := range c.Parent().Blocks {
+					cond, t, f, isIf := ifSuccs(b)
+					if !isIf {
+						continue
+					}
+					keep := f
+					if u, isU := cond.(*ssa.UnOp); isU && u.Op == token.NOT {
+						cond, keep = u.X, t
+					}
+					ex, isEx := cond.(*ssa.Extract)
+					if !isEx || ex.Index != 0 {
+						continue
+					}
+					wc, isCall := ex.Tuple.(*ssa.Call)
+					if !isCall || callSym(wc.Common()).name != "WaitObjReady" {
+						continue
+					}
+					// the decision is taken per member: inside the loop that appends it
+					if h := loopHeaderOf(c.Block()); h == nil || loopHeaderOf(wc.Block()) != h {
+						continue
+					}
+					if keep == c.Block() || keep.Dominates(c.Block()) {
+						guarded = true
+					}
+				}
+				if !guarded {
+					ok = false
+					det = "a member is kept or dropped by something other than the skip decision of WaitObjReady for that member (e.g. `state != Created`, which also drops a live member that is not visible yet)"
+				}
 			}
 			if n == 0 {
 				ok = false
